@@ -249,22 +249,25 @@ func (n *Namespace) doConnect(socket *serverSocket) error {
 	c.sockets.set(socket)
 	c.nsps.set(n)
 
-	// It is paramount that the internal `onconnect` logic
-	// fires before user-set events to prevent state order
-	// violations (such as a disconnection before the connection
-	// logic is complete)
-	socket.onConnect()
-	c.admitMu.Unlock()
-
 	// The connection handlers are the first in the queue of the socket: its events are handled
 	// after them. The client may send events as soon as it receives the CONNECT packet, and the
-	// handlers of these events are attached by the connection handlers. On a goroutine of
-	// their own, the connection handlers could run after such an event was already handled
-	// (without any handler, that is dropped).
+	// handlers of these events are attached by the connection handlers. They are put into the
+	// queue before the CONNECT packet is sent for that reason (an event that found the queue
+	// empty would be handled at once, without any handler, that is dropped).
 	socket.packetRunner.add(func() {
+		// It is paramount that the internal `onconnect` logic
+		// fires before user-set events to prevent state order
+		// violations (such as a disconnection before the connection
+		// logic is complete). Wait until the admission is over.
+		c.admitMu.Lock()
+		c.admitMu.Unlock()
+
 		n.server.anyConnectionHandlers.forEach(func(handler *ServerAnyConnectionFunc) { (*handler)(n.name, socket) }, false)
 		n.connectionHandlers.forEach(func(handler *NamespaceConnectionFunc) { (*handler)(socket) }, false)
 	})
+
+	socket.onConnect()
+	c.admitMu.Unlock()
 	return nil
 }
 
